@@ -20,3 +20,27 @@ package standard
 //@   ghostset after go: counted = false
 //@   loop 0:
 //@     invariant !counted
+
+// Shutdown (sequential slice): the listener is closed (when there is one) before the active gauge is read for
+// the first time, and nil is returned only straight after a reading of the gauge that was <= 0 (the other
+// returns hand back the context's error or the timeout error).
+//@ ghost var lnDone bool
+//@ ghost var idleSeen bool
+//@ ghost var ctxErr bool
+//@ func transport.Shutdown(t, ctx) err
+//@   props C18
+//@   abstract
+//@   noinline
+//@   modifies lnDone, idleSeen, ctxErr
+//@   ghostset-at-entry lnDone = false
+//@   ghostset-at-entry idleSeen = false
+//@   ghostset-at-entry ctxErr = false
+//@   ghostset after Listener: lnDone = (result == nil)
+//@   ghostset after Close: lnDone = true
+//@   ghostset after updateActive: idleSeen = (result <= 0)
+//@   ghostset after Err: ctxErr = true
+//@   assert before updateActive: lnDone && arg1 == 0
+//@   top-ensures err == nil ==> idleSeen || ctxErr
+//@   loop 0:
+//@     invariant lnDone && !ctxErr
+
